@@ -8,6 +8,7 @@ CONSTANTS
   Fmts = {"bc"}
   NFiles = {1}
   Lazy = {"none"}
+  ProbeMax = 5
   Touches = {"lookup", "getitem"}
   Variant = "tie_first"
 INVARIANT TypeOK
